@@ -272,3 +272,20 @@ package ice
 //@   site call newSharedPacketConn#1 assume reference-counter-not-exhausted: muxedConn.refs < 2147483647
 //@   site call newSharedAddrPortConn#1 assert a-handle-is-handed-out-only-on-an-open-connection: (created || foundOpen) && arg0 == muxedConn
 //@   site call newSharedPacketConn#1 assert a-handle-is-handed-out-only-on-an-open-connection: (created || foundOpen) && arg0.payload == muxedConn
+
+// Closing the mux (the body runs once): every registered connection of both families is closed, both tables
+// are replaced by empty ones, the closed channel is closed and the shared socket is closed, in that order
+// (a connection registered after that would never be closed: GetConn refuses on a closed mux).
+//@ func (*UDPMuxDefault).Close$1
+//@   props C12 C13
+//@   opt nosafety
+//@   ghostvar tablesCleared bool = false
+//@   ghostvar markedClosed bool = false
+//@   site call Close#1 assert closes-the-registered-ipv4-connections: recv == c
+//@   site call Close#2 assert closes-the-registered-ipv6-connections: recv == c
+//@   site store connsIPv6#1 ghost tablesCleared := true
+//@   site call close#1 assert the-mux-is-marked-closed-after-its-tables-were-emptied: tablesCleared && arg0 == m.closedChan
+//@   site call close#1 ghost markedClosed := true
+//@   site call Close#3 assert the-shared-socket-is-closed-last: markedClosed && recv == m.params.UDPConn
+//@   ensures no-connection-stays-registered: len(m.connsIPv4) == 0 && len(m.connsIPv6) == 0
+//@   ensures the-mux-is-closed: closed(m.closedChan)
